@@ -56,6 +56,8 @@ def shard(i, n, args):
             cat = "null-admitting" if na else "literal" if is_lit else "optional" if optional else "required"
             res["kinds"][cat] = res["kinds"].get(cat, 0) + 1
             where = "%s.%s" % (root.name if root.kind in ("S",) else root.kind, pn)
+            if na or is_lit:
+                sibling_content_probes(mm, py, root, pn, p, seed, fail, res)
             for k in range(K):
                 g = TGen(mm, rng_for(seed, "C10", root.label, pn, k), maxdepth=2, p_opt=[0.0, 1.0, 0.5, 0.3][k % 4])
                 tree = g.gen(root.t, 0, [("prop", pn)])
@@ -119,6 +121,55 @@ def shard(i, n, args):
     return res
 
 
+SIBLING_STRINGS = ["C:\\work\\project", "file:///C:/Users/dev", "", "kind", "7", "true", "null", "{}", " ", "a/b", "\ufeffx", "https://u:p@h/x", "/home/me/project"]
+
+
+class FixedStringGen(TGen):
+    """every string / URI position holds one given text (content-coupled sibling properties)"""
+
+    def __init__(self, *a, text="", **kw):
+        super().__init__(*a, **kw)
+        self.text = text
+
+    def base(self, n):
+        if n in ("string", "DocumentUri", "URI"):
+            return self.text
+        return super().base(n)
+
+
+def sibling_content_probes(mm, py, root, pn, p, seed, fail, res):
+    """absent null-admitting / literal property next to siblings with particular string CONTENT:
+    still reads None / the literal, and the unset attribute is still written."""
+    an = snake(pn)
+    is_lit = p["type"]["kind"] == "stringLiteral"
+    where = "%s.%s" % (root.name if root.kind in ("S",) else root.kind, pn)
+    for text in SIBLING_STRINGS:
+        g = FixedStringGen(mm, rng_for(seed, "C10-sib", root.label, pn, text), maxdepth=2, p_opt=1.0, text=text)
+        tree = g.gen(root.t, 0, [("prop", pn)])
+        kids = dict(tree[2])
+        kids.pop(pn, None)
+        t2 = (tree[0], tree[1], kids)
+        j2 = to_json(t2)
+        res["sibling_content_probes"] = res.get("sibling_content_probes", 0) + 1
+        try:
+            o3 = py.conv.structure(j2, root.cls)
+        except Exception:
+            continue
+        v = getattr(o3, an, "<no attribute>")
+        if is_lit and v != p["type"]["value"]:
+            fail("absent literal reads other value|at=%s" % where, {"root": root.label, "property": pn, "json": j2, "got": repr(v), "sibling_text": text})
+        elif not is_lit and v is not None:
+            fail("absent null-admitting property reads non-None|at=%s" % where, {"root": root.label, "property": pn, "json": j2, "got": repr(v), "sibling_text": text})
+        try:
+            u = json.loads(json.dumps(py.conv.unstructure(o3, root.cls)))
+        except Exception:
+            continue
+        if pn not in u:
+            fail("unset %s property omitted|at=%s" % ("literal" if is_lit else "null-admitting", where), {"root": root.label, "property": pn, "json": j2, "output": u, "sibling_text": text})
+        elif not is_lit and u[pn] is not None:
+            fail("unset null-admitting property not written as null|at=%s" % where, {"root": root.label, "property": pn, "output": u, "sibling_text": text})
+
+
 def main(tier):
     rep = common.Report("C10", tier)
     nsh = min(8, common.NCPU) if tier == "quick" else common.NCPU
@@ -140,6 +191,7 @@ def main(tier):
     cov = {
         "evaluations": sum(r["cases"] for r in results),
         "distinct_nontrivial": attrs_n,
+        "sibling_content_probes": sum(r.get("sibling_content_probes", 0) for r in results),
         "rule": "every property of every structure / request / response / notification / and-type class, K surrounding variations each: set -> key written; unset -> written iff null-admitting, literal or envelope field; absent on parse -> None / literal.  Expected table from the metamodel.  non-trivial = distinct (class, attribute)",
         "attributes": attrs_n,
         "attribute_categories": kinds,
